@@ -33,7 +33,7 @@ fn num(m: &HashMap<String, String>, k: &str) -> usize {
     m.get(k).and_then(|v| v.parse().ok()).unwrap_or(0)
 }
 
-fn panic_msg(e: Box<dyn std::any::Any + Send>) -> String {
+pub fn panic_msg(e: Box<dyn std::any::Any + Send>) -> String {
     if let Some(s) = e.downcast_ref::<String>() {
         s.clone()
     } else if let Some(s) = e.downcast_ref::<&str>() {
@@ -43,7 +43,7 @@ fn panic_msg(e: Box<dyn std::any::Any + Send>) -> String {
     }
 }
 
-fn obs(outcome: &str, msg: &str) -> ! {
+pub fn obs(outcome: &str, msg: &str) -> ! {
     let one_line: String = msg.replace('\n', " | ").chars().take(2000).collect();
     println!("OBS outcome={outcome} msg={one_line}");
     use std::io::Write;
@@ -61,10 +61,16 @@ fn lifecycle(p: &HashMap<String, String>) {
     }
     for k in 0..num(p, "recorded") {
         // mock-induced panics (same kind, different text), swallowed, through a clone that is gone afterwards
-        let c = u.clone();
-        let r = catch_unwind(AssertUnwindSafe(|| c.foo(99 - k as i32)));
-        assert!(r.is_err());
-        drop(c);
+        if flag(p, "via_original") {
+            // ... or on the original itself (C18: routing never changes the verdict)
+            let r = catch_unwind(AssertUnwindSafe(|| u.foo(99 - k as i32)));
+            assert!(r.is_err());
+        } else {
+            let c = u.clone();
+            let r = catch_unwind(AssertUnwindSafe(|| c.foo(99 - k as i32)));
+            assert!(r.is_err());
+            drop(c);
+        }
     }
     if flag(p, "helper") {
         // default-method delegation on the original creates its internal helper clone
@@ -172,8 +178,13 @@ fn fallthrough(p: &HashMap<String, String>) {
     }
 }
 
+mod gen;
+
 fn main() {
     let (sc, p) = args();
+    if gen::run(&sc, &p) {
+        return;
+    }
     match sc.as_str() {
         "lifecycle" => lifecycle(&p),
         "fallthrough" => fallthrough(&p),
